@@ -4,8 +4,12 @@
    minus one; big-endian fields; length-prefixed text; SDES chunks null-terminated and zero-filled;
    trailing padding of zeros ending in the count.  It shares nothing with the model's writers.
    [in_window p x]: x is one of p .. p+16, the numbers a word with PID p can name without wrapping past
-   65535 (the property's "strictly increasing" words). *)
-From RtcpV Require Import Proofs.Members Proofs.NackMin.
+   65535 (the property's "strictly increasing" words).
+   [length_field img]: the big-endian value of bytes 2..3.  [rfc_header] writes be16 (total/4 - 1): the RFC
+   value whenever the packet has at most 262144 bytes; builders without a total-size rule accept longer
+   packets (known finding D13) and then the field is that value modulo 65536
+   (C07_length_field_oversize_refuted). *)
+From RtcpV Require Import Proofs.Members Proofs.NackMin Proofs.C07b.
 
 (* the n bytes any accepted builder writes are exactly rfc_image, for packets, third-party writers and
    nested compounds *)
@@ -76,3 +80,43 @@ Check C07_nack_words_are_as_few_as_possible :
     (forall x, In x l -> exists w, In w ws /\ in_window (fst w) x) ->
     length (rfc_nack_words fuel l) <= length ws.
 Print Assumptions C07_nack_words_are_as_few_as_possible.
+
+(* the boundary of the previous theorem: if a word may wrap past 65535 (which the decoder does read), one
+   word (65530, bit 5) covers {0, 65530} and decodes to it, while the encoder writes its two greedy words *)
+Theorem C07_nack_minimality_with_wrapping_words_refuted :
+  exists (l : list N) (ws : list (N * N)),
+    asc l /\ (forall x, In x l -> exists w, In w ws /\ in_window_wrap (fst w) x) /\
+    length ws < length (rfc_nack_words (length l) l) /\
+    nack_words None 0%N l = rfc_nack_words (length l) l /\
+    nack_entries (concat (map (fun w => be16 (fst w) ++ be16 (snd w)) ws)) = Ok [65530%N; 0%N].
+Proof. exact nack_minimal_with_wrapping_refuted. Qed.
+Check C07_nack_minimality_with_wrapping_words_refuted :
+  exists (l : list N) (ws : list (N * N)),
+    asc l /\ (forall x, In x l -> exists w, In w ws /\ in_window_wrap (fst w) x) /\
+    length ws < length (rfc_nack_words (length l) l) /\
+    nack_words None 0%N l = rfc_nack_words (length l) l /\
+    nack_entries (concat (map (fun w => be16 (fst w) ++ be16 (snd w)) ws)) = Ok [65530%N; 0%N].
+Print Assumptions C07_nack_minimality_with_wrapping_words_refuted.
+
+(* every image starts with rfc_header: up to 262144 bytes its length field is size/4 - 1 *)
+Theorem C07_length_field_is_size_div_4_minus_1 :
+  forall (pt p c : N) (total : nat) (rest : bytes),
+    4 <= total -> (N.of_nat total <= 262144)%N ->
+    length_field (rfc_header pt p c total ++ rest) = N.of_nat (total / 4 - 1).
+Proof. exact rfc_header_length_field. Qed.
+Check C07_length_field_is_size_div_4_minus_1 :
+  forall (pt p c : N) (total : nat) (rest : bytes),
+    4 <= total -> (N.of_nat total <= 262144)%N ->
+    length_field (rfc_header pt p c total ++ rest) = N.of_nat (total / 4 - 1).
+Print Assumptions C07_length_field_is_size_div_4_minus_1.
+
+(* known finding D13 seen from this property: an accepted APP configuration of more than 262144 bytes
+   whose image cannot carry size/4 - 1 in its length field *)
+Theorem C07_length_field_oversize_refuted :
+  exists c n, app_wf c /\ app_calc c = Ok n /\ (262144 < N.of_nat n)%N /\
+              length_field (rfc_app c) <> N.of_nat (n / 4 - 1).
+Proof. exact length_field_oversize_refuted. Qed.
+Check C07_length_field_oversize_refuted :
+  exists c n, app_wf c /\ app_calc c = Ok n /\ (262144 < N.of_nat n)%N /\
+              length_field (rfc_app c) <> N.of_nat (n / 4 - 1).
+Print Assumptions C07_length_field_oversize_refuted.
